@@ -1,8 +1,13 @@
 #!/bin/sh
 # tools/benignbatch.sh [patch...]  — run every quick check against each behaviour-preserving patch in /verif/benign
+# BENIGN_ONLY='C03=S-part;C05=P-resume' restricts the run to some obligations (re-verification after adding obligations)
 cd /verif
 [ $# -eq 0 ] && set -- benign/*.diff
 for f in "$@"; do
   echo "== $f"
-  timeout 7200 python3 tools/benigncheck.py "$f" --jobs ${BENIGN_JOBS:-3} 2>&1 | cut -c1-400
+  if [ -n "$BENIGN_ONLY" ]; then
+    timeout 7200 python3 tools/benigncheck.py "$f" --jobs ${BENIGN_JOBS:-3} --only "$BENIGN_ONLY" 2>&1 | cut -c1-400
+  else
+    timeout 7200 python3 tools/benigncheck.py "$f" --jobs ${BENIGN_JOBS:-3} 2>&1 | cut -c1-400
+  fi
 done
